@@ -33,6 +33,28 @@ class Gen:
         self.natives = {}
         self.nid = 0
         self.pid = 0
+        # syntactic context of the statement being generated
+        self._loop = False      # inside a for-of body of the current function: `break` allowed
+        self._func = False      # inside a function body: `return` allowed
+        self._retval = ""       # what `return` returns here (iterator return() callbacks must return an object)
+
+    def ctx(self, loop=None, func=None, retval=None):
+        """context manager: generate a sub-tree under another syntactic context"""
+        g = self
+
+        class C:
+            def __enter__(s):
+                s.old = (g._loop, g._func, g._retval)
+                if loop is not None:
+                    g._loop = loop
+                if func is not None:
+                    g._func = func
+                    g._loop = False if loop is None else loop
+                    g._retval = retval or ""
+
+            def __exit__(s, *a):
+                g._loop, g._func, g._retval = s.old
+        return C()
 
     def fresh(self, p):
         self.nid += 1
@@ -48,12 +70,20 @@ class Gen:
             strict = getattr(self, '_strict', False)
         r = self.rng
         if d <= 0:
-            c = r.choice(["P", "P", "P", "T", "K", "tmpP"])
+            c = r.choice(["P", "P", "P", "T", "K", "tmpP", "BR", "RT"])
         else:
             c = r.choice(["P", "S", "S", "S", "call", "forEach", "try", "try", "try", "forOf", "forOfC", "block",
-                          "gnat", "job", "tmpP", "T", "ref", "priv", "priv"])
+                          "gnat", "job", "tmpP", "T", "ref", "priv", "priv", "BR", "RT"])
             if strict and c == "ref":
                 c = "block"          # class bodies are strict code: no `with`
+        if c == "BR" and not self._loop:
+            c = "RT"
+        if c == "RT" and not self._func:
+            c = "P"
+        if c == "BR":
+            return ["BR"], "break;"
+        if c == "RT":
+            return ["RT"], "return %s;" % self._retval
         if c == "K":
             return ["K"], ";"
         if c == "P":
@@ -71,16 +101,19 @@ class Gen:
             return ["S"] + a + b, ja + " " + jb
         if c == "call":
             n = r.randint(0, 2)
-            b, jb = self.beh(d - 1)
+            with self.ctx(func=True):
+                b, jb = self.beh(d - 1)
             return ["Fc", str(n)] + b, "(function(){ %s })(%s);" % (jb, ",".join("0" * n))
         if c == "forEach":
-            b, jb = self.beh(d - 1)
+            with self.ctx(func=True):
+                b, jb = self.beh(d - 1)
             return ["Fn", "1", "G", "3"] + b, "[0].forEach(function(){ %s });" % jb
         if c == "try":
             hc, hf = r.choice([(1, 0), (0, 1), (1, 1)])
             b, jb = self.beh(d - 1)
             h, jh = self.beh(d - 2) if hc else (["K"], "")
-            f, jf = self.beh(d - 2) if hf else (["K"], "")
+            with self.ctx(loop=False, func=False):          # no break / return out of a finally block
+                f, jf = self.beh(d - 2) if hf else (["K"], "")
             js = "try { %s }" % jb
             if hc:
                 js += " catch(e%d) { %s }" % (d, jh)
@@ -88,11 +121,14 @@ class Gen:
                 js += " finally { %s }" % jf
             return ["Y", str(hc), str(hf)] + b + h + f, js
         if c == "forOf":
-            b, jb = self.beh(d - 1)
+            with self.ctx(loop=True):
+                b, jb = self.beh(d - 1)
             return ["Fo"] + b, "for (var v%d of [0]) { %s }" % (d, jb)
         if c == "forOfC":
-            rt, jr = self.beh(d - 2)
-            b, jb = self.beh(d - 1)
+            with self.ctx(func=True, retval="{}"):
+                rt, jr = self.beh(d - 2)
+            with self.ctx(loop=True):
+                b, jb = self.beh(d - 1)
             it = self.fresh("it")
             js = "var %s = MKIT(function(){ %s return {}; }); for (var w%d of %s) { %s }" % (it, jr, d, it, jb)
             return ["S", "Fn", "1", "K", "FO", "G", "0"] + rt + b, js
@@ -113,20 +149,24 @@ class Gen:
             old = getattr(self, '_strict', False)
             self._strict = True
             try:
-                b, jb = self.beh(d - 1)
+                with self.ctx(func=True):
+                    b, jb = self.beh(d - 1)
             finally:
                 self._strict = old
             return ["Fp", "Fc", "0"] + b, "class %s { #p = 1; [(() => { %s })()](){} }" % (x, jb)
         if c == "ref":
             # `with` makes the assignment go through a reference record that is live while the RHS runs
-            b, jb = self.beh(d - 1)
+            with self.ctx(func=True):
+                b, jb = self.beh(d - 1)
             return ["Fr", "Fc", "0"] + b, "with (WO) { wv = (function(){ %s })(); }" % jb
         if c == "job":
-            b, jb = self.beh(d - 1)
+            with self.ctx(func=True):
+                b, jb = self.beh(d - 1)
             return (["S", "Fn", "0", "K", "S", "Fn", "1", "K", "J", "G", "1"] + b,
                     "Promise.resolve().then(function(){ %s });" % jb)
         if c == "gnat":
-            ops, toks = self.goops(d - 1)
+            with self.ctx(func=False, loop=False):
+                ops, toks = self.goops(d - 1)
             g = self.fresh("G")
             self.natives[g] = ops
             return ["Fn", "0"] + toks, "%s();" % g
@@ -134,7 +174,8 @@ class Gen:
 
     def fn(self, d):
         """a global JS function with a generated body; returns (name, tokens of body)"""
-        b, jb = self.beh(d)
+        with self.ctx(func=True):
+            b, jb = self.beh(d)
         f = self.fresh("F")
         self.prelude.append("function %s(){ %s }" % (f, jb))
         return f, b
@@ -145,15 +186,13 @@ class Gen:
         n = r.randint(1, 2)
         ops, toks = [], []
         for _ in range(n):
-            if top:
-                # RunProgram directly under a depth-0 Try takes the outermost path (not modelled)
-                c = r.choice(["CA", "CO", "TRY", "FOROF", "CAS", "TRYS"]) if d > 0 else r.choice(["CA", "CAS"])
-            else:
-                c = r.choice(["RP", "CA", "CO", "TRY", "FOROF", "RPS", "CAS", "TRYS"]) if d > 0 else r.choice(["RP", "CA", "RPS", "CAS"])
+            # RunProgram directly under a depth-0 Try takes the outermost branch: `Aq`/`Bq` dispatch on the call-stack length
+            c = r.choice(["RP", "CA", "CO", "TRY", "FOROF", "RPS", "CAS", "TRYS"]) if d > 0 else r.choice(["RP", "CA", "RPS", "CAS"])
             if c in ("RP", "RPS"):
-                b, jb = self.beh(d)
+                with self.ctx(func=False, loop=False):
+                    b, jb = self.beh(d)
                 ops.append({"op": c, "src": jb})
-                toks.append(["Ap" if c == "RP" else "Bp"] + b)
+                toks.append(["Aq" if c == "RP" else "Bq"] + b)
             elif c == "CAS":
                 f, b = self.fn(d)
                 k = r.randint(0, 2)
@@ -188,7 +227,8 @@ class Gen:
         api = r.choice(["RP", "RP", "CA", "CO", "EX", "TR", "TG", "ER"])
         self.pid = 0
         if api == "RP":
-            b, jb = self.beh(d)
+            with self.ctx(func=False, loop=False):
+                b, jb = self.beh(d)
             return ["RP", str(k), mk] + b, {"api": "RP", "src": jb, "k": k, "kind": kind}
         if api in ("CA", "CO", "EX"):
             f, b = self.fn(d)
@@ -196,12 +236,14 @@ class Gen:
             return (["CA" if api != "CO" else "CO", str(n), str(k), mk] + b,
                     {"api": api, "fn": f, "n": n, "k": k, "kind": kind})
         if api == "TG":
-            b, jb = self.beh(d)
+            with self.ctx(func=True):
+                b, jb = self.beh(d)
             o = self.fresh("O")
             self.prelude.append("var %s = { get x(){ %s } };" % (o, jb))
             return ["TG", str(k), mk] + b, {"api": "TG", "obj": o, "k": k, "kind": kind}
         if api == "ER":
-            b, jb = self.beh(d)
+            with self.ctx(func=True):
+                b, jb = self.beh(d)
             o = self.fresh("E")
             self.prelude.append("var %s = { toString(){ %s } };" % (o, jb))
             return ["ER", str(k), mk] + b, {"api": "ER", "obj": o, "k": k, "kind": kind}
